@@ -331,11 +331,7 @@ def generate(repo):
                     sty.append(coq_list(sorted(coq_aa1(c) for c in str_list(n.comparators[0]))))
         need(len(sty) == 3, 'three S/T/Y lists expected, found %d' % len(sty))
         # the loop of setPhosPhoSites is tied semantically (g_minipy -> Props/Tie/minipy_phospho_tie.v), not by shape
-        need(ast.unparse(S('clear_phosphosites').body[-1]) == 'self.phosphosites = []', 'clear')
-        g = ast.unparse(S('get_phosphosites'))
-        need('for i in self.phosphosites:\n        newSites.append(i + 1)' in g and 'return newSites' in g, 'get_phosphosites')
-        ps = ast.unparse(S('get_phosphosequence'))
-        need("if idx in self.phosphosites:" in ps and "pseq = pseq + 'E'" in ps and 'pseq = pseq + self.seq[idx]' in ps, 'phosphosequence')
+        # clear_phosphosites / get_phosphosites / get_phosphosequence / get_STY_residues: semantic ties (minipy_phospho_tie.v)
         km = ast.unparse(S('kappa_at_maxPhos'))
         need("if len(self.phosphosites) == 0:\n        return self.kappa()" in km and "newseq[pos] = 'E'" in km
              and 'return newseqObj.kappa()' in km, 'kappa_at_maxPhos')
@@ -348,8 +344,6 @@ def generate(repo):
             if isinstance(n, ast.Call) and ast.unparse(n.func) == 'phosphokappa.append':
                 tup = [ast.unparse(e) for e in n.args[0].elts]
         need(tup is not None, 'distribution tuple')
-        sy = ast.unparse(S('get_STY_residues'))
-        need('idx = 1' in sy and 'sites.append(idx)' in sy and 'idx = idx + 1' in sy, 'get_STY_residues')
         return ('Definition g_sty_lists : list (list aa) := %s.\n'
                 'Definition g_phospho_letter : aa := Glu.\n'
                 'Definition g_dist_fields : list string := %s.' % (coq_list(sty), coq_list([coq_str(x) for x in tup])))
